@@ -22,6 +22,9 @@ use yrs::verif::{dump_store, VBlock, VBranch, VContent, VItem, VParent, VStore};
 use yrs::types::TypeRef;
 use yrs::{Any, Array, DeepObservable, IdSet, Map, Observable, Out, ReadTxn, Subscription, Text, Transact, TransactionMut, Xml, XmlFragment, XmlOut, ID};
 
+thread_local! { static BYTES_KIND: std::cell::Cell<bool> = std::cell::Cell::new(false); }
+/// the units a document counts text in: UTF-16 code units, or UTF-8 bytes for OffsetKind::Bytes
+fn units(s: &str) -> Vec<u16> { if BYTES_KIND.with(|b| b.get()) { s.bytes().map(u16::from).collect() } else { s.encode_utf16().collect() } }
 type AttrMap = BTreeMap<String, String>;
 #[derive(Clone, Debug, PartialEq)]
 enum El { Ch(u16, AttrMap), Embed(String, AttrMap) } // one UTF-16 unit per Ch
@@ -53,7 +56,7 @@ fn apply_text_delta(sh: &mut Vec<El>, delta: &[Delta], problems: &mut Vec<String
         match d {
             Delta::Inserted(v, at) => {
                 let am = at.as_ref().map(|a| attrs_of(a)).unwrap_or_default();
-                match v { Out::Any(Any::String(s)) => { let us: Vec<El> = s.encode_utf16().map(|u| El::Ch(u, am.clone())).collect(); let n = us.len(); let at = i.min(sh.len()); sh.splice(at..at, us); i = at + n; }
+                match v { Out::Any(Any::String(s)) => { let us: Vec<El> = units(s).into_iter().map(|u| El::Ch(u, am.clone())).collect(); let n = us.len(); let at = i.min(sh.len()); sh.splice(at..at, us); i = at + n; }
                           other => { let at = i.min(sh.len()); sh.insert(at, El::Embed(val(other), am)); i = at + 1; } }
             }
             Delta::Deleted(n) => { let n = *n as usize; if i + n > sh.len() { problems.push(format!("text delta deletes {} units at {} but the observer has {}", n, i, sh.len())); let at = i.min(sh.len()); sh.truncate(at); } else { sh.drain(i..i + n); } }
@@ -118,7 +121,7 @@ fn canon_attrs(tab: &mut HashMap<String, u64>, a: &Option<Box<Attrs>>) -> String
 }
 fn canon_delta(tab: &mut HashMap<String, u64>, d: &[Delta]) -> String {
     d.iter().map(|c| match c {
-        Delta::Inserted(Out::Any(Any::String(s)), a) => format!("+S{}@{}", { let u: Vec<String> = s.encode_utf16().map(|u| format!("{:x}", u)).collect(); if u.is_empty() { "_".to_string() } else { u.join(".") } }, canon_attrs(tab, a)),
+        Delta::Inserted(Out::Any(Any::String(s)), a) => format!("+S{}@{}", { let u: Vec<String> = units(s).into_iter().map(|u| format!("{:x}", u)).collect(); if u.is_empty() { "_".to_string() } else { u.join(".") } }, canon_attrs(tab, a)),
         Delta::Inserted(o, a) => format!("+E{}@{}", tk(tab, &val(o)), canon_attrs(tab, a)),
         Delta::Deleted(n) => format!("-{:x}", n),
         Delta::Retain(n, a) => format!("={:x}@{}", n, canon_attrs(tab, a)),
@@ -168,7 +171,7 @@ fn model_text_items(tab: &mut HashMap<String, u64>, b: &VBranch, ins: &IdSet, de
     if b.seq.is_empty() { return "_".into(); }
     b.seq.iter().map(|it| {
         let c = match &it.content {
-            VContent::String(s) => format!("S{}", { let u: Vec<String> = s.encode_utf16().map(|u| format!("{:x}", u)).collect(); if u.is_empty() { "_".to_string() } else { u.join(".") } }),
+            VContent::String(s) => format!("S{}", { let u: Vec<String> = units(s).into_iter().map(|u| format!("{:x}", u)).collect(); if u.is_empty() { "_".to_string() } else { u.join(".") } }),
             VContent::Embed(a) => format!("E{}", tk(tab, &print_any(a))),
             VContent::Type(t) => format!("E{}", tk(tab, &type_token(t, &it.id))),
             VContent::Format(k, v) => format!("F{}:{}", tk(tab, &format!("key:{}", k)), tk(tab, &print_any(v))),
@@ -240,7 +243,7 @@ fn read_text_units(chunks: Vec<yrs::types::text::Diff<YChange>>) -> Vec<El> {
     let mut out = vec![];
     for d in chunks {
         let am = d.attributes.as_ref().map(|a| attrs_of(a)).unwrap_or_default();
-        match &d.insert { Out::Any(Any::String(s)) => for u in s.encode_utf16() { out.push(El::Ch(u, am.clone())); }, o => out.push(El::Embed(val(o), am)) }
+        match &d.insert { Out::Any(Any::String(s)) => for u in units(s) { out.push(El::Ch(u, am.clone())); }, o => out.push(El::Embed(val(o), am)) }
     }
     out
 }
@@ -366,11 +369,13 @@ fn run_case(seed: u64, index: u64, rep: &mut Report, m: &mut Model) {
     let mut r = Rng::for_case(seed, 111, index);
     let n = r.range(1, 3) as usize;
     let gc = r.chance(1, 3);
-    let mut obs: Vec<Obs> = (0..n).map(|i| mk_obs([1u64, 2, 3][i], DocCfg { gc, ..DocCfg::default() })).collect();
+    let bytes = r.chance(1, 3);
+    BYTES_KIND.with(|b| b.set(bytes));
+    let mut obs: Vec<Obs> = (0..n).map(|i| mk_obs([1u64, 2, 3][i], DocCfg { gc, bytes_offsets: bytes, ..DocCfg::default() })).collect();
     let ecfg = EditCfg::default();
     let mut msgs: Vec<(usize, Vec<u8>)> = vec![];
     let mut delivered: Vec<BTreeSet<usize>> = vec![BTreeSet::new(); n];
-    let mut script = vec![format!("replicas={} gc={}", n, gc)];
+    let mut script = vec![format!("replicas={} gc={} offsets={}", n, gc, if bytes { "bytes" } else { "utf16" })];
     let mut fails: Vec<serde_json::Value> = vec![];
     let mut tag = 0u64;
     let mut remote_txns = 0;
@@ -383,7 +388,7 @@ fn run_case(seed: u64, index: u64, rep: &mut Report, m: &mut Model) {
         let what;
         if r.chance(3, 5) || cand.is_empty() {
             let mut sc = vec![];
-            let (u1, _) = local_txn(&obs[i].rep, &mut r, &ecfg, false, 4, &mut sc, &mut tag);
+            let (u1, _) = local_txn(&obs[i].rep, &mut r, &ecfg, bytes, 4, &mut sc, &mut tag);
             what = format!("r{} txn {{{}}}", i, sc.join("; "));
             if let Some(a) = u1.into_iter().next() { msgs.push((i, a)); delivered[i].insert(msgs.len() - 1); }
         } else {
